@@ -1,8 +1,8 @@
 import SFV.Driver.Json
 import SFV.Model.Circuit
 import SFV.Model.Compare
-namespace SFV.Drv
-open Lean SFV
+namespace SFV.Drv.K1
+open Lean SFV SFV.Drv
 
 def asPar (j : Json) : R Par := do
   match j.getObjVal? "m" with
@@ -53,7 +53,7 @@ def gbsErrStr : GbsErr → String
   | .following => "following" | .noFock => "noFock"
   | .notConsecutive => "notConsecutive" | .twice => "twice"
 
-def k1 (op : String) (j : Json) : Option (R Json) :=
+def handler (op : String) (j : Json) : Option (R Json) :=
   match op with
   | "grid" => some do
     let l ← getCmds j "l"
@@ -99,4 +99,4 @@ def k1 (op : String) (j : Json) : Option (R Json) :=
     pure <| Json.bool (programEquiv l1 l2)
   | _ => none
 
-end SFV.Drv
+end SFV.Drv.K1
